@@ -7,6 +7,7 @@ import (
 	"regexp"
 	"strconv"
 	"strings"
+	"syscall"
 	"testing"
 	"time"
 
@@ -176,6 +177,42 @@ func TestC19(t *testing.T) {
 				chk("unreadable-"+a[:min(len(a), 24)], []string{a}, nonzero, false, "a script that cannot be read must exit non-zero with a message and run nothing")
 			}
 			chk("symlink", []string{"link.bn"}, is(0), true, "a readable script reached through a symbolic link must run")
+			// a script that is not a regular file: a named pipe is read to its end like any other script
+			for i, fc := range []struct {
+				text   string
+				status int
+				ran    bool
+			}{{c19Marker, 0, true}, {c19Marker + bn.KwPrint + " 1 +;\n", 65, false}, {c19Marker + "nope;\n", 70, true}, {strings.Repeat("// pad\n", 20000) + c19Marker, 0, true}} {
+				name := fmt.Sprintf("fifo%d.bn", i)
+				fp := filepath.Join(dir, name)
+				os.Remove(fp)
+				if err := syscall.Mkfifo(fp, 0o644); err != nil {
+					c.Ev.Note("cannot create a named pipe here: " + err.Error())
+					break
+				}
+				wrote := make(chan struct{})
+				go func(text string) {
+					defer close(wrote)
+					if f, err := os.OpenFile(fp, os.O_WRONLY, 0); err == nil {
+						f.WriteString(text)
+						f.Close()
+					}
+				}(fc.text)
+				cr := c.c19Run([]string{name}, "")
+				// release the writer if the interpreter never opened the pipe
+				if rf, err := os.OpenFile(fp, os.O_RDONLY|syscall.O_NONBLOCK, 0); err == nil {
+					select {
+					case <-wrote:
+					case <-time.After(5 * time.Second):
+					}
+					rf.Close()
+				}
+				c.Ev.Case("command-lines", "named pipe "+name, true, "cmdline")
+				if ran := strings.Contains(cr.Stdout, "SCRIPT-RAN"); cr.TimedOut || cr.Status != fc.status || ran != fc.ran {
+					s.Violation(Replay{Check: "cmdline", Sig: fmt.Sprintf("cmdline-named-pipe-%d", i), Source: name, Note: fmt.Sprintf("a script read from a named pipe must behave like the same text in a file (status %d)", fc.status),
+						Observed: fmt.Sprintf("status=%d timedOut=%v stdout=%q stderr=%q", cr.Status, cr.TimedOut, clip(cr.Stdout, 200), clip(cr.Stderr, 200))})
+				}
+			}
 			chk("missing", []string{filepath.Join(dir, "missing.bn")}, nonzero, false, "an unreadable file must exit non-zero with a message")
 			os.MkdirAll(filepath.Join(dir, "d.bn"), 0o755)
 			chk("directory", []string{filepath.Join(dir, "d.bn")}, nonzero, false, "a directory named like a script must exit non-zero with a message")
